@@ -126,13 +126,13 @@ func (c12Engine) Gen(r *core.Rand, tier string, i int) any {
 		case "write", "append", "printf":
 			a.Target = core.Pick(r, []string{"out1", "out2", "out1", "in1", "-", "/dev/stdout", "/dev/stderr", "sub/out3", "/dev/fd/1", "/dev/fd/2"})
 		case "read", "read-var":
-			a.Target = core.Pick(r, []string{"in1", "in2", "in1", "missing", "-", "out1"})
+			a.Target = core.Pick(r, []string{"in1", "in2", "in1", "missing", "-", "out1", "empty"})
 		case "close":
 			a.Target = core.Pick(r, append(files, "cw", "cr"))
 		case "pipe-out":
 			a.Target = "cw"
 		case "pipe-in", "pipe-in-var":
-			a.Target = "cr"
+			a.Target = core.Pick(r, []string{"cr", "cr", "cr", "dash"})
 		case "system":
 			a.Target = core.Pick(r, []string{"cs", "cs", "cs", "blank"})
 		}
@@ -403,6 +403,10 @@ func (e c12Engine) Run(scAny any, keep bool) (out core.Outcome) {
 			return "cs;exit:3"
 		case "blank":
 			return "" // a command string that is empty at run time: still an attempt to start a process
+		case "dash":
+			return "-" // a command whose text is "-" is a command, not standard input
+		case "empty":
+			return "" // a file name that is empty at run time (an unset variable): still an attempt to open a file
 		}
 		if c12IsSpecial(t) || c12IsDevFd(t) {
 			return t
@@ -633,8 +637,8 @@ func (e c12Engine) Run(scAny any, keep bool) (out core.Outcome) {
 		}
 		switch a.Kind {
 		case "system", "pipe-in", "pipe-in-var", "pipe-out":
-			if a.Target == "blank" {
-				continue // nothing observable is required of an empty command when it is permitted
+			if a.Target == "blank" || a.Target == "dash" {
+				continue // nothing observable is required of an empty or "-" command when it is permitted
 			}
 			found := false
 			want := strings.ReplaceAll(nameOf(a.Target), "\n", "\\n")
